@@ -122,6 +122,23 @@ class Deriv:
         return res or [expr]
 
 
+_CONTAINER_CTORS = {"dict", "list", "set", "defaultdict", "OrderedDict", "OrderedSet", "deque", "Counter", "collections.defaultdict", "collections.OrderedDict", "collections.deque"}
+
+
+def _fresh_container(v: ast.AST) -> bool:
+    if isinstance(v, (ast.Dict, ast.List, ast.Set)) and not (v.keys if isinstance(v, ast.Dict) else v.elts):
+        return True
+    if isinstance(v, ast.Call):
+        f = v.func.value if isinstance(v.func, ast.Subscript) else v.func
+        try:
+            name = ast.unparse(f)
+        except Exception:
+            return False
+        if name in _CONTAINER_CTORS and (not v.args or name.endswith("defaultdict")) and not v.keywords:
+            return True
+    return False
+
+
 class _Subst(ast.NodeTransformer):
     def __init__(self, cfg: CFG, at: int, depth: int):
         self.cfg, self.at, self.depth = cfg, at, depth
@@ -134,6 +151,10 @@ class _Subst(ast.NodeTransformer):
             nid, val = defs[0]
             import copy
 
+            if _fresh_container(val):
+                # `m = {}` / `defaultdict(list)` / `[]`: the name denotes a container that is filled afterwards; the
+                # expression that created it says nothing about what `m[k]` is at the point of use
+                return node
             return _Subst(self.cfg, nid, self.depth - 1).visit(copy.deepcopy(val))
         return node
 
